@@ -898,7 +898,9 @@ class Driver:
             self.driver_actor.drive_at(worker, worker_start_timestamp)
 
     def may_complete_current_task(self, task_allocations):
-        any_joinpoints_completing_parent = [a for a in task_allocations if a.task.any_task_completes_parent]
+        # only a client that actually executes a task of the current step can complete it: a worker whose clients are idle in this
+        # step (the step uses fewer clients than the widest one) reaches the join point right away without any task having finished
+        any_joinpoints_completing_parent = [a for a in task_allocations if a.client_id in a.task.any_task_completes_parent]
         joinpoints_completing_parent = [a for a in task_allocations if a.task.preceding_task_completes_parent]
 
         # If 'completed-by' is set to 'any', then we *do* want to check for completion by
